@@ -1,5 +1,5 @@
 use crate::{
-    ast::{DataType, DataTypeMember, Struct, Variant},
+    ast::{DataType, DataTypeMember, Field, Struct, Variant},
     attr::{ChildAttr, ChildParentsAttr, ChildPath, DataTypeAttrs, DataTypeInstruction, FallibleKind, GhostIdent, GhostsAttr, Kind, MemberAttrs, MemberInstruction, ParentAttr, TraitAttr, TraitAttrCore, TypeHint, TypePath, WhereAttr},
 };
 use proc_macro2::Span;
@@ -81,7 +81,7 @@ pub(crate) fn validate(input: &DataType) -> Result<()> {
 
                 validate_dedicated_member_attrs(&member_attrs.parent_attrs, |x| x.container_ty.as_ref(), Some("parent"), member_span, &type_paths, &mut errors);
 
-                validate_parent_attrs(input.named_fields(), &member_attrs.parent_attrs, &data_type_attrs_by_kind, &mut errors);
+                validate_parent_attrs(input.named_fields(), f, &member_attrs.parent_attrs, &data_type_attrs_by_kind, &mut errors);
             },
             DataTypeMember::Variant(v) => {
                 bark_at_member_attr(&member_attrs.parent_attrs, "parent", |_| v.ident.span(), &mut errors);
@@ -300,7 +300,7 @@ fn validate_dedicated_member_attrs<T, U: Fn(&T) -> Option<&TypePath>>(attrs: &Ve
     }
 }
 
-fn validate_parent_attrs(named_root_struct: bool, parent_attrs: &[ParentAttr], data_type_attrs_by_kind: &[(&TraitAttrCore, Kind, bool)], errors: &mut HashMap<String, Span>) {
+fn validate_parent_attrs(named_root_struct: bool, field: &Field, parent_attrs: &[ParentAttr], data_type_attrs_by_kind: &[(&TraitAttrCore, Kind, bool)], errors: &mut HashMap<String, Span>) {
     for p in parent_attrs {
         for (attr, _, _) in data_type_attrs_by_kind.iter().filter(|(x, kind, _)| !kind.is_from() && (p.container_ty.is_none() || &x.ty == p.container_ty.as_ref().unwrap())) {
             if let Some(fields) = p.child_fields.as_ref() { fields.iter().for_each(|f| {
@@ -312,6 +312,10 @@ fn validate_parent_attrs(named_root_struct: bool, parent_attrs: &[ParentAttr], d
         }
 
         for _ in data_type_attrs_by_kind.iter().filter(|(x, kind, _)|kind.is_from() && (p.container_ty.is_none() || &x.ty == p.container_ty.as_ref().unwrap())) {
+            if p.child_fields.is_some() && field.ty.is_none() {
+                errors.insert(format!("Member '{}' has #[parent(...)] instruction with fields, its type should be a struct name", field.member.to_token_stream()), field.member.span());
+            }
+
             if let Some(fields) = p.child_fields.as_ref() { fields.iter().for_each(|f| {
                 for i in f.sub_path.iter() {
                     if i.1.is_none() {
